@@ -231,7 +231,7 @@ PROPS["C06"] = dict(
                   dict(harness="any", build="plain", runs=600000, offset=1060000, enumerate=True, wall_cap=2400),
                   dict(harness="any", build="plain", runs=200, offset=1660000, valgrind=True, workers=8, wall_cap=1200)],
     ),
-    rule=("a case is one execution of a seeded history (1-15 operations) over three xtl::any objects and seventeen payload types on both sides of the in-place/heap threshold "
+    rule=("a case is one execution of a seeded history (1-15 operations) over three xtl::any objects and nineteen payload types on both sides of the in-place/heap threshold "
           "(int, two small nothrow-move tracked types, shared_ptr and a reference-like type whose assignment writes through to caller cells in place; a large, a throwing-move and an over-aligned tracked type, std::string, a type with an extra T(T&) copy constructor, a heap-sized reference-like type, a tree node with an initializer_list constructor and a type whose memberwise assignment can throw half-way on the heap; a plain pointer in place, against which array-typed casts must fail). "
           "Value assignment also takes the any's own content as argument (a = any_cast<T&>(a), also moved). The caller cells behind reference-like payloads must never change (the container may only construct and destroy payloads) and a copy of an any must never run T(T&). "
           "A fault is 'the k-th fault point of this step fails', a fault point being a payload copy/move (throws) or an allocation by xtl::any (operator new is replaced; bad_alloc). "
@@ -382,13 +382,13 @@ MANIFEST_TEXT = {
         technique="deterministic simulation: seeded operation histories with several handles on shared memory against a reference model, allocator fault injection, dirty caller memory",
     ),
     "C05": dict(
-        text="fault enumeration inside seeded histories: every sampled history over three variants with trivial, nothrow-movable, throwing-copy and throwing-move alternatives (plus further alternative sets: a variant with exactly 256 alternatives, an alternative constructible from anything, reference and const-reference closures of one type in one variant, defaulted-assignment alternatives with registered lifetimes, and all-trivially-destructible alternatives with throwing constructors and NaN doubles) is executed fault-free and then once for every (step, k) with a throw injected at the k-th constructor/assignment reached in that step; a lifetime registry checks construct-once/destroy-once/no-use-after-destruction, every observer must agree with the model, results without a throw are std::variant's, results after a throw satisfy the property's disjunction (valueless, pre-call value, or requested value)",
+        text="fault enumeration inside seeded histories: every sampled history over three variants with trivial, nothrow-movable, throwing-copy and throwing-move alternatives (plus further alternative sets: a variant with exactly 256 alternatives, an alternative constructible from anything, reference and const-reference closures of one type in one variant, defaulted-assignment alternatives with registered lifetimes, all-trivially-destructible alternatives with throwing constructors and NaN doubles, and an alternative assigned from an argument that lives inside the alternative being replaced) is executed fault-free and then once for every (step, k) with a throw injected at the k-th constructor/assignment reached in that step; a lifetime registry checks construct-once/destroy-once/no-use-after-destruction, every observer must agree with the model, results without a throw are std::variant's, results after a throw satisfy the property's disjunction (valueless, pre-call value, or requested value)",
         design_ref="4.4",
         note="histories are sampled, fault positions inside each sampled history are enumerated; the table-based visitation path does not exist on this toolchain",
         technique="deterministic simulation with fault injection: injected throws at enumerated fault points, lifetime registry, reference model of std::variant semantics",
     ),
     "C06": dict(
-        text="fault enumeration inside seeded histories over three xtl::any objects and seventeen payload types on both sides of the in-place/heap threshold (among them a reference-like type whose assignment writes through to caller cells, a type with an extra T(T&) constructor, an over-aligned type, and a node that itself holds an any and is assigned from inside its own content): each sampled history runs fault-free and then once per (step, k) with the k-th payload copy/move throwing or the k-th allocation failing; a lifetime registry checks construct-once/destroy-once/no-use-after-destruction, has_value/type/any_cast for every type must agree with the model after every step, a failed copy or value assignment must leave the target's previous value, copies must be independent, casts succeed only for exactly the stored type",
+        text="fault enumeration inside seeded histories over three xtl::any objects and nineteen payload types on both sides of the in-place/heap threshold (among them a reference-like type whose assignment writes through to caller cells, a type with an extra T(T&) constructor, an over-aligned type, and a node that itself holds an any and is assigned from inside its own content): each sampled history runs fault-free and then once per (step, k) with the k-th payload copy/move throwing or the k-th allocation failing; a lifetime registry checks construct-once/destroy-once/no-use-after-destruction, has_value/type/any_cast for every type must agree with the model after every step, a failed copy or value assignment must leave the target's previous value, copies must be independent, casts succeed only for exactly the stored type",
         design_ref="4.5",
         note="histories are sampled, fault positions inside each sampled history are enumerated; global operator new is replaced in the harness binary",
         technique="deterministic simulation with fault injection: injected throws and allocation failures at enumerated fault points, lifetime registry, reference model",
@@ -412,19 +412,19 @@ MANIFEST_TEXT = {
         technique="deterministic simulation (degenerate: seeded walker histories against an index model, no fault dimension)",
     ),
     "C14": dict(
-        text="hash coherence across simulated histories: std::hash of every fixed string equals the reference MurmurHash64A of its characters after every step, equal contents reached by different histories (different stale bytes), in different layouts and capacities hash equally; the byte hashes are additionally evaluated on the buffers the simulation produces (also keys of several kilobytes and the empty key given as a null pointer) at every alignment in exact-size blocks against an independent reference (that half is evaluation of a pure function on simulated states and is reported under its own counter); three real caller threads hash at once under ThreadSanitizer, so that state shared between calls shows as a data race whatever the schedule",
+        text="hash coherence across simulated histories: std::hash of every fixed string equals the reference MurmurHash64A of its characters after every step, equal contents reached by different histories (different stale bytes), in different layouts and capacities hash equally; the byte hashes are additionally evaluated on the buffers the simulation produces (also keys of several kilobytes and the empty key given as a null pointer) at every alignment in exact-size blocks against an independent reference (that half is evaluation of a pure function on simulated states and is reported under its own counter); three real caller threads hash at once under ThreadSanitizer, so that state shared between calls shows as a data race whatever the schedule; the same functions are also called before main() from a global constructor and compared with later calls, and keys end at the last byte before an unmapped page",
         design_ref="4.9",
         note="the pure half is sampled evaluation of a pure function, not more; little-endian 64-bit platform only",
         technique="deterministic simulation: hash invariants over seeded histories, placement/alignment/stale-byte variation, independent reference implementation",
     ),
     "C17": dict(
-        text="seeded registration/erasure/dispatch histories against every dispatcher kind (map and fast functor dispatchers with 1-3 arguments and both casting policies, static dispatcher symmetric and antisymmetric, acyclic and cyclic visitors), with recording handlers: a dispatch must run exactly the handler the model holds for the tuple of dynamic types with the caller's own objects in registered order and the extra argument itself, or report an error and run nothing; an exception thrown by a handler must reach the caller unchanged; registrations of the functor dispatchers also meet injected allocation failures, after which only the previous or the attempted handler (or an error if there was none) may answer for that tuple; dispatchers are copied and the original changed or destroyed; in a quarter of the runs the steps are issued from three OS threads, one at a time, so registration and dispatch happen on different threads",
+        text="seeded registration/erasure/dispatch histories against every dispatcher kind (map and fast functor dispatchers with 1-3 arguments and both casting policies, static dispatcher symmetric and antisymmetric, acyclic and cyclic visitors), with recording handlers: a dispatch must run exactly the handler the model holds for the tuple of dynamic types with the caller's own objects in registered order and the extra argument itself, or report an error and run nothing; an exception thrown by a handler must reach the caller unchanged; registrations of the functor dispatchers also meet injected allocation failures, after which only the previous or the attempted handler (or an error if there was none) may answer for that tuple; dispatchers are copied and the original changed, erased from or destroyed; functors are handed over as const lvalue, the caller's own lvalue (intact afterwards) or rvalue; the handler has to run on the executor the caller passed; in a quarter of the runs the steps are issued from three OS threads, one at a time, so registration and dispatch happen on different threads",
         design_ref="4.10",
         note="sampled histories over a four-class hierarchy; the fault dimension is the error path (lookups that must fail), allocation failure inside registrations, and the lazily assigned process-global class indices",
         technique="deterministic simulation: seeded registration/lookup histories against a reference map, error-path injection, reset of process-global state per run",
     ),
     "C20": dict(
-        text="fault enumeration inside seeded histories: every /proc/self/exe target length 2..PATH_MAX-1 is delivered through the wrapped readlink (sweep configuration), each also with an injected error return, plus seeded random histories biased to the buffer boundaries with arbitrary name bytes and tails such as \" (deleted)\"; every simulated installation runs in a process of its own, so results may be cached; results compared byte for byte with the simulated target, under ASan/UBSan and in a plain build with a dirtied stack",
+        text="fault enumeration inside seeded histories: every /proc/self/exe target length 2..PATH_MAX-1 is delivered through the wrapped readlink (sweep configuration), each also with an injected error return, plus seeded random histories biased to the buffer boundaries with arbitrary name bytes and tails such as \" (deleted)\"; every simulated installation runs in a process of its own, so results may be cached; results compared byte for byte with the simulated target, under ASan/UBSan and in a plain build with a dirtied stack; 24 kinds of stale errno, directories of conventional names at any depth, and steps in which three callers ask at once (truly concurrent in a ThreadSanitizer batch, where state shared between calls is a reported race)",
         design_ref="4.11",
         note="trusts the wrapper's model of Linux readlink (silent truncation, no terminator, errno); only the Linux branch is compiled; samples path shapes, enumerates lengths",
         technique="deterministic simulation with fault injection: simulated readlink syscall (link-time wrap), enumerated lengths and error returns, seeded path shapes",
